@@ -30,6 +30,7 @@ CONSTANTS Queries,        \* set of query descriptors (see BaseQ)
           MaxA, MaxB,     \* bounds on the number of records
           HdrModes,       \* subset of BOOLEAN: input (and join) table with / without column names
           BreakPoints,    \* set of Nat: the leaf writer refuses from this call on (0 = never)
+          Cyclic,         \* TRUE: the input iterator never ends -- after the last record of A it starts over (C02, unbounded input)
           EmitCases, MUT
 
 \* shape of a query descriptor; MC modules build theirs with [BaseQ EXCEPT ...]
@@ -63,6 +64,9 @@ vars == <<q, A, B, hasHdr, breakAt, pc, bi, maxlenB, nr, nu, pulled, matches, ca
 NameA(k) == "x" \o ToString(k)
 NameB(k) == "y" \o ToString(k)
 WidthA == IF A = <<>> THEN 2 ELSE Len(A[1])
+\* the i-th record the input iterator delivers (1-based): A itself, or A repeated for ever when Cyclic
+RecA(i) == IF Cyclic THEN A[((i - 1) % Len(A)) + 1] ELSE A[i]
+PullSat == 3 * (Len(A) + 1) + 4
 WidthB == IF B = <<>> THEN 2 ELSE Len(B[1])
 HdrA == IF hasHdr THEN [k \in 1..WidthA |-> NameA(k)] ELSE <<>>
 HdrB == IF hasHdr /\ q.join # "none" THEN [k \in 1..WidthB |-> NameB(k)] ELSE <<>>
@@ -88,8 +92,8 @@ Streaming(qq)    == qq.kind = "select" /\ qq.hastop /\ ~Sorted(qq) /\ ~Aggregate
 \* key of A record i: <<TRUE, bad field>> or <<FALSE, tuple of values>>
 RECURSIVE KeyAFrom(_, _)
 KeyAFrom(i, ks) == IF ks = <<>> THEN <<>>
-                   ELSE <<(IF ks[1][1] = 0 THEN IntV(i) ELSE A[i][ks[1][1]])>> \o KeyAFrom(i, Tail(ks))
-BadKeyFieldA(i) == LET bad == {k \in 1..Len(q.jkeys) : q.jkeys[k][1] > Len(A[i])} IN
+                   ELSE <<(IF ks[1][1] = 0 THEN IntV(i) ELSE RecA(i)[ks[1][1]])>> \o KeyAFrom(i, Tail(ks))
+BadKeyFieldA(i) == LET bad == {k \in 1..Len(q.jkeys) : q.jkeys[k][1] > Len(RecA(i))} IN
                    IF bad = {} THEN 0 ELSE q.jkeys[CHOOSE k \in bad : \A m \in bad : k <= m][1]
 RECURSIVE KeyBFrom(_, _)
 KeyBFrom(j, ks) == IF ks = <<>> THEN <<>>
@@ -126,7 +130,7 @@ UnitsOf(i) ==
                 [] q.join = "strict" -> IF Len(ps) # 1 THEN << [i |-> i, j |-> 0, kind |-> "stricterr", fld |-> 0] >>
                                         ELSE << [i |-> i, j |-> ps[1], kind |-> "pair", fld |-> 0] >>
 
-EnvOf(i, j, nuv) == [a |-> A[i], b |-> IF j = 0 THEN <<>> ELSE B[j], hasb |-> j # 0, nr |-> i, bnr |-> j,
+EnvOf(i, j, nuv) == [a |-> RecA(i), b |-> IF j = 0 THEN <<>> ELSE B[j], hasb |-> j # 0, nr |-> i, bnr |-> j,
                      bnf |-> IF j = 0 THEN MaxLen(B) ELSE Len(B[j]), nu |-> nuv]
 
 --------------------------------------------------------------------------
@@ -208,13 +212,13 @@ ApplyAssign(asg, env, up) ==
 
 \* outcome of one UPDATE unit given the count of records updated before it
 UpdOutG(u, nubefore, oper) ==
-    IF u.kind = "nopartner" THEN [err |-> FALSE, fld |-> 0, row |-> A[u.i], upd |-> FALSE]
+    IF u.kind = "nopartner" THEN [err |-> FALSE, fld |-> 0, row |-> RecA(u.i), upd |-> FALSE]
     ELSE LET env0 == EnvOf(u.i, u.j, nubefore)
              w    == Eval(q.where, env0) IN
          IF IsErr(w) THEN [err |-> TRUE, fld |-> 0, row |-> <<>>, upd |-> FALSE]
-         ELSE IF ~Truthy(w) THEN [err |-> FALSE, fld |-> 0, row |-> A[u.i], upd |-> FALSE]
-         ELSE LET r == IF oper THEN ApplyAssign(q.assign, [env0 EXCEPT !.nu = nubefore + 1], A[u.i])
-                       ELSE AssignRef(q.assign, [env0 EXCEPT !.nu = nubefore + 1], A[u.i]) IN
+         ELSE IF ~Truthy(w) THEN [err |-> FALSE, fld |-> 0, row |-> RecA(u.i), upd |-> FALSE]
+         ELSE LET r == IF oper THEN ApplyAssign(q.assign, [env0 EXCEPT !.nu = nubefore + 1], RecA(u.i))
+                       ELSE AssignRef(q.assign, [env0 EXCEPT !.nu = nubefore + 1], RecA(u.i)) IN
               [err |-> r.err, fld |-> r.fld, row |-> r.rec, upd |-> TRUE]
 
 --------------------------------------------------------------------------
@@ -548,9 +552,11 @@ SetChain(s) == /\ out' = s.out /\ leafcalls' = s.leafcalls /\ mon' = s.mon /\ nw
 Pull == /\ pc = "loop"
         /\ IF stop /\ MUT # "no_stop_on_false"
            THEN /\ pc' = "finish" /\ UNCHANGED <<nr, pulled>>
-           ELSE /\ pulled' = pulled + 1
-                /\ IF nr = Len(A) THEN /\ pc' = "finish" /\ UNCHANGED nr
-                   ELSE /\ nr' = nr + 1 /\ pc' = "rec"
+           ELSE \* with an endless (cyclic) input the record counter wraps and the pull counter saturates: the state space stays
+                \* finite without a state constraint, so that a query that never stops shows up as a fair cycle (liveness)
+                /\ pulled' = IF Cyclic /\ pulled >= PullSat THEN pulled ELSE pulled + 1
+                /\ IF (nr = Len(A) /\ ~Cyclic) \/ A = <<>> THEN /\ pc' = "finish" /\ UNCHANGED nr
+                   ELSE /\ nr' = (IF Cyclic THEN (nr % Len(A)) + 1 ELSE nr + 1) /\ pc' = "rec"
         /\ UNCHANGED <<q, A, B, hasHdr, breakAt, bi, maxlenB, nu, matches, cands, candkey, uset, stop, sortbuf, seen, counts, nw, aggst, aggcols, aggkeys, fphase, fq, out, hdr, hdrset, leafcalls, mon, err>>
 
 \* join_map.get_rhs(key) for the current record (SELECT), or the whole record for UPDATE
@@ -723,6 +729,11 @@ SortSpec == (pc = "finish" /\ fphase = 1 /\ Sorted(q) /\ ~q.desc /\ ~Aggregated(
             /\ \A k \in 1..Len(sortbuf) : CountIn(s, sortbuf[k]) = CountIn(sortbuf, sortbuf[k])
 
 Terminal == pc \in {"done", "error"}
+
+\* C02, termination on unbounded input: with a cyclic (endless) iterator a bounded streaming query still finishes.
+\* Checked under weak fairness; no state constraint (a constraint would hide the non-progress cycle).
+FairSpec == Init /\ [][Next]_vars /\ WF_vars(Next)
+Terminates == <>(pc \in {"done", "error"})
 
 WarnRagged(T) == IF T = <<>> THEN <<>> ELSE
                  LET bad == {k \in 1..Len(T) : Len(T[k]) # Len(T[1])} IN
